@@ -419,7 +419,8 @@ def run_check(pid, tier, seed, replay=None):
     }
     os.makedirs(os.path.join(VERIF, "evidence"), exist_ok=True)
     # a replay is a diagnostic run on one stored case: it must not overwrite the evidence of the last real run
-    ev_path = os.path.join(VERIF, "evidence", pid + (".replay.json" if replay else ".json"))
+    # ... and neither must a run against a scratch tree (VERIF_REPO = a seeded change or a refactoring under test)
+    ev_path = os.path.join(VERIF, "evidence", pid + (".replay.json" if replay else ".scratch.json" if os.path.realpath(REPO) != "/repo" else ".json"))
     json.dump(ev, open(ev_path, "w"), indent=1, ensure_ascii=True)
     try:
         import jsonschema
